@@ -9,7 +9,7 @@ import XzVerif.Proofs.Fuel
   C11 — Readers never panic or stall on arbitrary input.
 
   `Gen.panicSites` (regenerated with go/ast on every run) lists every explicit `panic(` of
-  packages xz and lzma.  `C11_panic_sites_reviewed` pins that list: a new panic site breaks it.
+  packages xz and lzma.  `C11_panic_sites_reviewed` pins that list from above: a new panic site breaks it (a removed one does not).
   The sites on the reader path and why no input reaches them:
     decoder.Read              — ring buffer `Read` never returns an error (`Peek` returns nil)
     decoder.apply             — `readOp` only returns `match` or `lit`
@@ -46,7 +46,10 @@ def reviewed : List (String × String × Nat) :=
    ("lzma/writer2.go", "Writer2.writeCompressedChunk", 4),
    ("lzma/writer2.go", "Writer2.writeUncompressedChunk", 1)]
 
-theorem C11_panic_sites_reviewed : Gen.panicSites = reviewed := by decide
+/-- every explicit panic of the current source is one of the reviewed ones (same file and function, not more of them than
+    reviewed): a NEW panic site breaks this, a removed one does not -/
+theorem C11_panic_sites_reviewed :
+    Gen.panicSites.all (fun s => reviewed.any (fun r => r.1 == s.1 && r.2.1 == s.2.1 && decide (s.2.2 ≤ r.2.2))) = true := by decide
 
 /-- `headerLen` is defined (does not panic) on every chunk type `headerChunkType` can return. -/
 theorem C11_headerLen_total :
